@@ -122,6 +122,7 @@ def main():
                 c.violation("%s: Green's function failed: %s" % (g["id"], r.get("fail") or r.get("ex")), g, cls="exception")
                 continue
             beta = float(r["beta"])
+            M_ = models.nmodes(g)
             G = {(o["i"], o["j"]): o for o in r["gf"]}
             rep = {"model": g["id"], "build": g["build"], "sites": g["sites"], "beta": r["beta"]}
             bad = None
@@ -168,16 +169,17 @@ def main():
                         bad = "z G_%d%d(z) = %s at |z| = 1e6, expected %s" % (i, j, z * a, d)
                 t0 = complex(float(o["tau"][0][1][0]), float(o["tau"][0][1][1]))
                 tb = complex(float(o["tau"][-1][1][0]), float(o["tau"][-1][1][1]))
-                if abs(t0 + tb + d) > 1e-9:
+                droptol = 4 ** M_ * 1e-8 + 1e-10          # residues below 1e-8 are dropped (documented): at most 4^M terms
+                if abs(t0 + tb + d) > droptol:
                     bad = "G_%d%d(0+) + G_%d%d(beta-) = %s, expected %s" % (i, j, i, j, t0 + tb, -d)
                 if i == j:
                     for n in (0, 1, 2, 40):
                         if val(o["n"], n).imag >= 0:
                             bad = "Im G_%d%d(i w_%d) = %s is not negative" % (i, i, n, val(o["n"], n).imag)
                     for (tau, v) in o["tau"]:
-                        if float(v[0]) > 1e-12:
+                        if float(v[0]) > 4 ** M_ * 1e-8:
                             bad = "G_%d%d(tau=%s) = %s is positive" % (i, i, tau, v[0])
-                    if dm is not None and "occ_i" in dm and abs(tb.real + float(dm["occ_i"][i])) > 1e-9:
+                    if dm is not None and "occ_i" in dm and abs(tb.real + float(dm["occ_i"][i])) > droptol:
                         bad = "G_%d%d(beta-) = %s but -<n_%d> = %s" % (i, i, tb.real, i, -float(dm["occ_i"][i]))
                 c.evaluations += 1
                 if bad:
